@@ -39,9 +39,17 @@ def thread_requests(shape):
 
 
 class Harness(object):
-    def __init__(self, s, kind, shape, broadcast):
+    def __init__(self, s, kind, shape, broadcast, fault=None):
         self.s, self.kind, self.shape, self.broadcast = s, kind, shape, broadcast
+        self.fault = fault            # None | ('drop-first', retries): the first request on the wire is never answered
+        self.dropped = None
         self.clock = clients.VClock()
+        osleep = self.clock.sleep
+
+        def sleep(d):
+            s.point('sleep')           # a caller backing off is a place where another thread may run
+            return osleep(d)
+        self.clock.sleep = sleep
         self.store = clientsim.LAY.ref(clientsim.LAY.initial_state())
         self.log = []                 # (thread id, op)
         self.results = {}
@@ -52,6 +60,8 @@ class Harness(object):
         self.patch = clients.Patched(self.clock, self.line)
         self.patch.__enter__()
         kw = dict(retries=0, timeout=3)
+        if fault:
+            kw = dict(retries=fault[1], retry_on_empty=True, retry_on_invalid=True, backoff=0.3, timeout=3)
         if broadcast:
             kw['broadcast_enable'] = True
         me_ = self
@@ -60,7 +70,7 @@ class Harness(object):
             def release(self_):
                 t = s.me()
                 if t is not None and self_.owner is t and self_.depth == 1:
-                    me_.log.append((t.tid, 'end'))          # the transaction is over when its lock is finally released
+                    me_.log.append((t.tid, 'rel'))          # the lock is let go (the last time before execute() returns ends the transaction)
                 return sched.SLock.release(self_)
 
             def __exit__(self_, *a):
@@ -74,27 +84,34 @@ class Harness(object):
             self.client = clients.make_client(kind, self.line, **kw)
         finally:
             pass
-        sock = self.client.socket
         me = self
 
         def tid():
             t = s.me()
             return t.tid if t is not None else -1
-        # scheduling points at every transport operation
-        for name in ('send', 'recv', 'write', 'read'):
-            if hasattr(sock, name):
-                orig = getattr(sock, name)
 
-                def wrapped(*a, _orig=orig, _name=name, **k):
-                    s.point(_name)
-                    me.log.append((tid(), _name))
-                    return _orig(*a, **k)
-                setattr(sock, name, wrapped)
+        def instrument(sock):
+            # scheduling points at every transport operation
+            if sock is None or getattr(sock, '_c15', False):
+                return
+            sock._c15 = True
+            for name in ('send', 'recv', 'write', 'read'):
+                if hasattr(sock, name):
+                    orig = getattr(sock, name)
+
+                    def wrapped(*a, _orig=orig, _name=name, **k):
+                        s.point(_name)
+                        me.log.append((tid(), _name))
+                        return _orig(*a, **k)
+                    setattr(sock, name, wrapped)
+        instrument(self.client.socket)
         oc = self.client.connect
 
         def connect():
             s.point('connect')
-            return oc()
+            r = oc()
+            instrument(self.client.socket)          # a connection re-opened after a failure is observed like the first
+            return r
         self.client.connect = connect
         self.requests = thread_requests(shape)
         for t in range(shape[0]):
@@ -106,6 +123,9 @@ class Harness(object):
         if p is None:
             return
         m = pdu.decode('req', p['pdu'])
+        if self.fault and self.dropped is None:
+            self.dropped = p['unit'] - UNIT
+            return                                   # the device misses this request: its sender times out
         if p['unit'] == 0 and self.broadcast:
             datamodel.execute(self.store, m)
             return                                   # a broadcast is never answered
@@ -152,8 +172,19 @@ def judge(acc, s, h, name, bound):
             problems.append(('raised:' + type(t.error).__name__, 'thread %d: %r' % (t.tid, t.error)))
     # mutual exclusion on the transport: between a thread's send and its last receive of that transaction
     # no other thread touches the transport
+    # a transaction ends where its caller let go of the lock for the last time before execute() returned
+    log, last_rel = list(h.log), {}
+    for i, (tid, op) in enumerate(h.log):
+        if op == 'rel':
+            last_rel[tid] = i
+        elif op == 'end':
+            if tid in last_rel:
+                log[last_rel.pop(tid)] = (tid, 'end')
+                log[i] = (tid, 'rel')
     owner = None
-    for tid, op in h.log:
+    for tid, op in log:
+        if op == 'rel':
+            continue
         if op == 'end':
             if owner == tid:
                 owner = None
@@ -172,6 +203,9 @@ def judge(acc, s, h, name, bound):
                 continue
             d = clientsim.describe(r)
             want = h.expected(m)
+            if h.fault and h.fault[1] == 0 and h.dropped == t and d[0] == 'error' and not h.__dict__.get('_excused'):
+                h._excused = True                    # the one request the device missed, no retry configured: an error object is the answer
+                continue
             if d[0] != 'response' or d[2] != want:
                 problems.append(('wrong-reply', 'thread %d asked %s and got %r (expected %s)' % (t, pdu.encode(m).hex(), d[:3], want.hex())))
         if s.outcome == 'ok' and len(res) != len(h.requests[t]):
@@ -194,14 +228,24 @@ CONFIGS = {
 }
 
 
+def parse_name(name):
+    head, sh = name.split(':')
+    fault = None
+    if '+drop' in head:
+        head, r = head.split('+drop')
+        fault = ('drop-first', int(r))
+    return head.replace('+broadcast', ''), tuple(int(x) for x in sh.split('x')), '+broadcast' in head, fault
+
+
 def shard(args):
-    kind, shape, broadcast, bound = args
+    kind, shape, broadcast, bound = args[:4]
+    fault = args[4] if len(args) > 4 else None
     acc = Acc()
-    name = '%s%s:%dx%d' % (kind, '+broadcast' if broadcast else '', shape[0], shape[1])
+    name = '%s%s%s:%dx%d' % (kind, '+broadcast' if broadcast else '', '+drop%d' % fault[1] if fault else '', shape[0], shape[1])
     hs = []
 
     def make(s):
-        h = Harness(s, kind, shape, broadcast)
+        h = Harness(s, kind, shape, broadcast, fault)
         hs.append(h)
         return h
 
@@ -223,6 +267,14 @@ def shard(args):
 def run(tier, seed):
     bound = 2 if tier == 'quick' else 3
     shards = [(k, sh, bc, bound if sh[0] * sh[1] <= 4 else 2) for k, sh, bc in CONFIGS[tier]]
+    # the first request on the wire is never answered: its caller times out (and retries once when configured to);
+    # the other callers are queued meanwhile
+    for k in ('tcp', 'serial-rtu'):
+        for retries in (0, 1):
+            shards.append((k, (2, 2), False, 2, ('drop-first', retries)))
+            if tier == 'thorough':
+                shards.append((k, (3, 1), False, 2, ('drop-first', retries)))
+                shards.append((k, (2, 2), False, 3, ('drop-first', retries)))
     acc = par.run_shards(shard, shards)
     he = None
     if acc.count('wire_orders') < 2 * len(shards) - 2:
@@ -241,10 +293,9 @@ def run(tier, seed):
 def replay(w):
     acc = Acc()
     name = w['config']
-    kind = name.split(':')[0].replace('+broadcast', '')
-    shape = tuple(int(x) for x in name.split(':')[1].split('x'))
+    kind, shape, bc, fault = parse_name(name)
     s = sched.Sched(w['schedule'], 3000)
-    h = Harness(s, kind, shape, '+broadcast' in name)
+    h = Harness(s, kind, shape, bc, fault)
     s.run()
     h.close()
     judge(acc, s, h, name, 9)
